@@ -1835,7 +1835,9 @@ def proximal_convex_conj_kl(space, lam=1, g=None):
             if g is None:
                 out += 4.0 * lam * self.sigma
             else:
-                out.lincomb(1, out, 4.0 * lam * self.sigma, g)
+                # If `g` is `out` (then also `x`), its values live on in the copy
+                out.lincomb(1, out, 4.0 * lam * self.sigma,
+                            x if g is out else g)
 
             # out = x - sqrt(...) + lam
             out.ufuncs.sqrt(out=out)
